@@ -54,9 +54,10 @@ func panicChild(maskStr, dm string) {
 	env := []byte{b01(c["kittyKeyboard"]), b01(c["sixels"]), b01(c["unicodeCore"]), b01(c["explicitWidth"]), b01(c["colorThemeUpdates"]),
 		b01(c["inBandResize"]), b01(c["osc176"]), b01(c["synchronizedUpdate"]), b01(c["disableMouse"])}
 	mu.Lock()
-	fmt.Fprintf(out, "E env %s %d %d %s\n", env, kf, ucs, hx.Hex(app))
+	fmt.Fprintf(out, "E env %s %d %d %s %s\n", env, kf, ucs, hx.Hex(app), origVals(caps))
 	out.Flush()
 	mu.Unlock()
+	vx.SetAppID("panicapp")
 	vx.Window().SetCell(1, 1, vaxis.Cell{Character: vaxis.Character{Grapheme: "x"}, Style: vaxis.Style{Attribute: vaxis.AttrBold, Hyperlink: "http://x"}})
 	vx.ShowCursor(2, 2, vaxis.CursorBeam)
 	vx.SetMouseShape(vaxis.MouseShapeClickable)
@@ -72,6 +73,24 @@ func panicChild(maskStr, dm string) {
 
 // capability bits of fakeconsole.CapNames that matter for start-up / shutdown
 var bits = []int{4 /*kittyKeyboard*/, 0 /*sixel*/, 2 /*unicodeCore*/, 15 /*explicitWidth*/, 3 /*colorTheme*/, 14 /*inBandResize*/, 11 /*osc176*/, 1 /*sync*/}
+
+// origVals: the ORIGINAL values of the terminal (what the fake terminal is configured to report), independent
+// of anything Vaxis stores: the cursor style of its DECRPSS reply (no reply: the terminal default, 0) and the
+// application id of its OSC 176 reply (no OSC 176: none).
+func origVals(caps fakeconsole.Caps) string {
+	ucs := caps.CursorStyle
+	if ucs < 0 {
+		ucs = 0
+	}
+	app := "-"
+	if caps.Osc176 {
+		app = hx.Hex("fakeapp")
+	}
+	return fmt.Sprintf("%d %s", ucs, app)
+}
+
+var appIDs = []string{"myapp", "other.app", "fakeapp", "é-term", "a;b", ""}
+var shapes = []vaxis.MouseShape{vaxis.MouseShapeClickable, vaxis.MouseShapeDefault, vaxis.MouseShapeTextInput, vaxis.MouseShape("crosshair")}
 
 func b01(b bool) byte {
 	if b {
@@ -111,7 +130,12 @@ func session(r *hx.Run, rng *gen.Rng, id string, sub uint32, disableMouse bool, 
 	caps.CursorStyle = cursorStyle
 	fc := fakeconsole.New(12, 5, caps)
 	fc.XPix, fc.YPix = 120, 100
-	vx, err := vaxis.New(vaxis.Options{WithConsole: fc, NoSignals: true, DisableMouse: disableMouse})
+	// kitty keyboard flags: the default (0 = leave it to Vaxis) or any mask of the five protocol bits
+	mask5 := 0
+	if rng.Chance(2, 3) {
+		mask5 = 1 + rng.Intn(31)
+	}
+	vx, err := vaxis.New(vaxis.Options{WithConsole: fc, NoSignals: true, DisableMouse: disableMouse, CSIuBitMask: vaxis.CSIuBitMask(mask5)})
 	if err != nil {
 		return err
 	}
@@ -119,7 +143,8 @@ func session(r *hx.Run, rng *gen.Rng, id string, sub uint32, disableMouse bool, 
 	c, kf, ucs, app := vx.VerifCaps()
 	env := []byte{b01(c["kittyKeyboard"]), b01(c["sixels"]), b01(c["unicodeCore"]), b01(c["explicitWidth"]), b01(c["colorThemeUpdates"]),
 		b01(c["inBandResize"]), b01(c["osc176"]), b01(c["synchronizedUpdate"]), b01(c["disableMouse"])}
-	r.Emit(fmt.Sprintf("env %s %d %d %s", env, kf, ucs, hx.Hex(app)), "-")
+	r.Emit(fmt.Sprintf("env %s %d %d %s %s", env, kf, ucs, hx.Hex(app), origVals(caps)), "-")
+	r.Count(fmt.Sprintf("kittyflags-%d", kf))
 	r.Emit("startup", hx.Hex(string(fc.Take())))
 	r.Count(fmt.Sprintf("shape-%d", shape))
 	cnv, clv := false, false
@@ -138,7 +163,22 @@ func session(r *hx.Run, rng *gen.Rng, id string, sub uint32, disableMouse bool, 
 				vx.HideCursor()
 				cnv = false
 			case 2:
-				vx.SetMouseShape(vaxis.MouseShapeClickable)
+				vx.SetMouseShape(gen.Pick(rng, shapes))
+				r.Count("setmouseshape")
+			}
+			if rng.Chance(1, 3) {
+				// the application changes the terminal's application id (written directly)
+				if b := fc.Take(); len(b) > 0 {
+					r.Emit("bytes", hx.Hex(string(b)))
+				}
+				idv := gen.Pick(rng, appIDs)
+				vx.SetAppID(idv)
+				r.Emit("setappid "+hx.Hex(idv), hx.Hex(string(fc.Take())))
+				r.Count("setappid")
+			}
+			if rng.Chance(1, 4) {
+				vx.SetTitle("title " + fmt.Sprint(rng.Intn(100)))
+				r.Count("settitle")
 			}
 			vx.Render()
 			clv = cnv
@@ -175,6 +215,12 @@ func session(r *hx.Run, rng *gen.Rng, id string, sub uint32, disableMouse bool, 
 	}
 	switch shape {
 	case 0:
+		if rng.Chance(1, 2) {
+			idv := gen.Pick(rng, appIDs)
+			vx.SetAppID(idv)
+			r.Emit("setappid "+hx.Hex(idv), hx.Hex(string(fc.Take())))
+			r.Count("setappid")
+		}
 		doClose()
 	case 1:
 		frames(1 + rng.Intn(3))
